@@ -73,7 +73,7 @@ def gen_history(rng, with_timeout):
         c = dict(n=n, kind=kind)
         if kind == "task":
             c["fail_at"] = sorted(rng.sample(range(n), rng.randint(1, min(2, n))))
-            c["exc"] = rng.choice(["Boom", "Boom", "Boom", "BoomBase", "SystemExit", "StopIteration"])
+            c["exc"] = rng.choice(["Boom", "Boom", "Boom", "BoomBase", "SystemExit", "StopIteration", "BoomFalsy"])
         elif kind == "iter":
             c["iter_fail_at"] = rng.randrange(n)
             c["exc"] = rng.choice(["Boom", "Boom", "BoomBase", "SystemExit"])
@@ -395,7 +395,7 @@ def run_real(case, ctx):
         # pools report them through another path than an exception raised by the task
         for c in hist:
             if c["kind"] == "task" and rng.random() < 0.35:
-                c.update(kind="transport", how=rng.choice(["unpicklable-result", "unpicklable-exception", "unpicklable-argument"]), fail_at=c["fail_at"][:1])
+                c.update(kind="transport", how=rng.choice(["unpicklable-result", "unpicklable-exception", "unpicklable-argument", "argument-pickling-raises-IndexError"]), fail_at=c["fail_at"][:1])
                 c.pop("exc", None)
     cfg["history"] = hist
     d = harness.mkscratch("vjl-c04-")
@@ -444,7 +444,8 @@ def run_real(case, ctx):
                 prev_failed = True
                 if not (o.get("exc_type") == c.get("exc", "Boom") and o.get("exc_args", [None])[0] == tag and o["exc_args"][1] in c["fail_at"]):
                     sk = c.get("exc") == "StopIteration" and o.get("exc_type") == "RuntimeError" and "generator raised StopIteration" in str(o.get("exc_args"))
-                    ctx.violation("task-failure:StopIteration-becomes-RuntimeError" if sk else "task-failure:" + ("returned" if "out" in o else "wrong-exception"),
+                    fk = c.get("exc") == "BoomFalsy" and backend == "loky" and o.get("exc_type") == "TypeError" and "'NoneType' object is not iterable" in str(o.get("exc_args"))
+                    ctx.violation("task-failure:StopIteration-becomes-RuntimeError" if sk else "task-failure:falsy-exception-instance:loky" if fk else "task-failure:" + ("returned" if "out" in o else "wrong-exception"),
                                   f"{backend} call {k} with failing tasks {c['fail_at']} gave {str(o)[:200]}", desc)
             else:
                 prev_failed = True
